@@ -4,7 +4,7 @@ P="$1"; shift
 cd /repo || exit 2
 if [ -n "$(git status --porcelain --untracked-files=no)" ]; then echo "repo not clean"; exit 2; fi
 if ! git apply --check "$P" 2>/dev/null; then
-  if git apply --3way "$P" 2>/dev/null; then git reset -q; echo "(applied with 3way)"; else echo "PATCH DOES NOT APPLY: $P"; git checkout -- . ; exit 3; fi
+  if git apply --3way "$P" 2>/dev/null && [ -z "$(git diff --name-only --diff-filter=U)" ]; then git reset -q; echo "(applied with 3way)"; else echo "PATCH DOES NOT APPLY: $P"; git reset -q; git checkout HEAD -- . ; exit 3; fi
 else
   git apply "$P"
 fi
